@@ -17,14 +17,8 @@ NEW_BASE = 100000          # model-side node ids of replacement objects
 # ------------------------------------------------------------------ plumbing owned by this check
 
 def repo_dir():
-    """The source tree the harness is built against (the replace line of harness/go.mod)."""
-    try:
-        for line in open(os.path.join(C.HARNESS, "go.mod")):
-            m = re.match(r"\s*replace\s+github.com/risor-io/risor\s*=>\s*(\S+)", line)
-            if m:
-                return m.group(1)
-    except OSError:
-        pass
+    """The source tree the harness is built against: C.REPO (normally /repo, a scratch copy when VERIF_REPO is set;
+    lib.common.ensure_harness_mod points the replace line of harness/go.mod at it before every build)."""
     return C.REPO
 
 
@@ -175,32 +169,86 @@ class Case:
     """One configuration with what is asked about it."""
 
     def __init__(self, cid, group, mode="A", nodefaults=False, custom=False, deny=(), override=(), lookups=(), evals=(),
-                 indep=False, deny_many=False):
+                 indep=False, deny_many=False, opts=None, extra=(), reuse=(), nomodel=False):
         self.id, self.group, self.mode = cid, group, mode
         self.nodefaults, self.custom = nodefaults, custom
         self.deny, self.override = list(deny), list(override)      # override: (name, kind)
         self.lookups = list(lookups)
         self.evals = list(evals)                                   # (src, path-name, syntax, role)
         self.indep, self.deny_many = indep, deny_many
+        # a configuration as the composition of a SEQUENCE of options (dicts {op, names, idx}); deny / override are then
+        # what is asked about: the union of the denied names, every override option's (name, kind)
+        self.opts = opts
+        self.extra = list(extra)                                   # values of WithGlobal(s) options: (name, kind)
+        self.reuse = [list(r) for r in reuse]                      # sub-lists of opts applied to further Configs (same Option values)
+        self.nomodel = nomodel                                     # holds objects the base graph does not have: oracle only
 
     def go_json(self):
-        return json.dumps({"id": self.id, "mode": self.mode, "nodefaults": self.nodefaults, "custom": self.custom,
-                           "deny": self.deny, "deny_many": self.deny_many,
-                           "override": [{"name": n, "kind": k} for n, k in self.override],
-                           "lookups": self.lookups, "eval": [e[0] for e in self.evals], "indep": self.indep})
+        j = {"id": self.id, "mode": self.mode, "nodefaults": self.nodefaults, "custom": self.custom,
+             "deny": self.deny, "deny_many": self.deny_many,
+             "override": [{"name": n, "kind": k} for n, k in self.override],
+             "lookups": self.lookups, "eval": [e[0] for e in self.evals], "indep": self.indep}
+        if self.opts is not None:
+            j["opts"] = self.opts
+            j["extra"] = [{"name": n, "kind": k} for n, k in self.extra]
+            j["reuse"] = self.reuse
+        return json.dumps(j)
 
-    def model_line(self, base):
-        toks = [self.id, "1" if self.nodefaults else "0", "1" if self.custom else "0"]
-        toks += ["D:" + hx(n) for n in self.deny]
+    def value_node(self, base, kind, fresh):
         insts = (1, 3) if self.custom else (1,)
-        for i, (n, k) in enumerate(self.override):
-            if k.startswith("ref:"):
-                v = base.lookup(k[4:], insts)
-                if v is None:
-                    v = base.lookup("len.__module__", insts) or NEW_BASE + 500 + i   # object.Nil
-            else:
-                v = NEW_BASE + i
-            toks.append("O:%s:%d" % (hx(n), v))
+        if kind.startswith("ref:"):
+            v = base.lookup(kind[4:], insts)
+            if v is None:
+                v = base.lookup("len.__module__", insts) or fresh + 500      # object.Nil
+            return v
+        return fresh
+
+    def assembled(self, base):
+        """A: tokens - the modules the host assembles (object.NewBuiltinsModule) before configuring"""
+        insts = (1, 3) if self.custom else (1,)
+        out = []
+        for vals, off in ((self.override, 0), (self.extra, 1000)):
+            for i, (n, k) in enumerate(vals):
+                if k.startswith("asm:"):
+                    _, mod, mem = k.split(":", 2)
+                    pairs = []
+                    for a in mem.split(","):
+                        d = base.lookup(mod + "." + a, insts)
+                        if d is not None:
+                            pairs.append("%s=%d" % (hx(a), d))
+                    out.append("A:%d:%s" % (NEW_BASE + off + i, ",".join(pairs)))
+        return out
+
+    def model_line(self, base, sub=None, suffix=""):
+        """sub: indices into opts - the model's prediction for a Config made from that sub-list of the options"""
+        toks = [self.id + suffix, "1" if (self.nodefaults and self.opts is None) else "0", "1" if self.custom else "0"]
+        if self.opts is None:
+            toks += ["D:" + hx(n) for n in self.deny]
+            for i, (n, k) in enumerate(self.override):
+                toks.append("O:%s:%d" % (hx(n), self.value_node(base, k, NEW_BASE + i)))
+        else:
+            toks += self.assembled(base)
+            for oi, o in enumerate(self.opts):
+                if sub is not None and oi not in sub:
+                    continue
+                op = o["op"]
+                if op == "nodefaults":
+                    toks.append("ND")
+                elif op == "without":
+                    toks.append("D:" + hx(o["names"][0]))
+                elif op == "without_many":
+                    toks.append("DM:" + ",".join(hx(n) for n in o["names"]))
+                elif op == "override":
+                    i = o["idx"][0]
+                    n, k = self.override[i]
+                    toks.append("O:%s:%d" % (hx(n), self.value_node(base, k, NEW_BASE + i)))
+                elif op == "global":
+                    j = o["idx"][0]
+                    n, k = self.extra[j]
+                    toks.append("G:%s:%d" % (hx(n), self.value_node(base, k, NEW_BASE + 1000 + j)))
+                elif op == "globals":
+                    toks.append("GM:" + ",".join("%s=%d" % (hx(self.extra[j][0]), self.value_node(base, self.extra[j][1], NEW_BASE + 1000 + j))
+                                                 for j in o["idx"]))
         looks = list(self.lookups) + [e[1] for e in self.evals if e[1]] + [e[1].split(".")[0] for e in self.evals if e[1]]
         seen = set()
         for n in looks:
@@ -210,8 +258,47 @@ class Case:
         return " ".join(toks)
 
     def describe(self):
-        return {"id": self.id, "group": self.group, "mode": self.mode, "nodefaults": self.nodefaults, "custom": self.custom,
-                "deny": self.deny, "override": self.override, "indep": self.indep}
+        d = {"id": self.id, "group": self.group, "mode": self.mode, "nodefaults": self.nodefaults, "custom": self.custom,
+             "deny": self.deny, "override": self.override, "indep": self.indep}
+        if self.opts is not None:
+            d["option_list"] = self.option_text()
+            d.update({"opts": self.opts, "extra": self.extra, "reuse": self.reuse})
+        return d
+
+    def option_text(self, sub=None):
+        out = []
+        for oi, o in enumerate(self.opts or []):
+            if sub is not None and oi not in sub:
+                continue
+            op = o["op"]
+            if op == "nodefaults":
+                out.append("WithoutDefaultGlobals()")
+            elif op == "without":
+                out.append("WithoutGlobal(%r)" % o["names"][0])
+            elif op == "without_many":
+                out.append("WithoutGlobals(%s)" % ", ".join(repr(n) for n in o["names"]))
+            elif op == "override":
+                out.append("WithGlobalOverride(%r, <%s>)" % tuple(self.override[o["idx"][0]]))
+            elif op == "global":
+                out.append("WithGlobal(%r, <%s>)" % tuple(self.extra[o["idx"][0]]))
+            elif op == "globals":
+                out.append("WithGlobals({%s})" % ", ".join("%r: <%s>" % tuple(self.extra[j]) for j in o["idx"]))
+        return out
+
+    def superseded(self):
+        """override options whose name is given again by a LATER override option (the overrides are a map: the last wins)"""
+        out = set()
+        if self.opts is None:
+            return out
+        last = {}
+        for o in self.opts:
+            if o["op"] == "override":
+                i = o["idx"][0]
+                n = self.override[i][0]
+                if n in last:
+                    out.add(last[n])
+                last[n] = i
+        return out
 
 
 def gen_cases(rng, base, tier):
@@ -361,6 +448,135 @@ def gen_cases(rng, base, tier):
                           lookups=dn + ["len", "os", "fresh_global_0"],
                           evals=[("len", "len", "dot", "nodefaults"), ("os", "os", "dot", "nodefaults"),
                                  ("import os", "os", "import", "nodefaults")]))
+    # 7. configurations composed from a SEQUENCE of options in any order: several deny options of both kinds (each
+    #    name given once or more, an empty WithoutGlobals), overrides (a name may be overridden twice: the last wins), extra
+    #    globals through WithGlobal / WithGlobals (also under the name of a default), WithoutDefaultGlobals anywhere in
+    #    the list; in plain-API mode further Configs are made from sub-lists of the SAME Option values
+    def shuffle(xs):
+        xs = list(xs)
+        for i in range(len(xs) - 1, 0, -1):
+            j = rng.below(i + 1)
+            xs[i], xs[j] = xs[j], xs[i]
+        return xs
+
+    ncomp = 400 if tier == "quick" else 5000
+    for ci in range(ncomp):
+        dn = []
+        for _ in range(2 + rng.below(5)):
+            nm = rng.choice(names1)
+            if rng.chance(1, 5) and "." in nm:
+                nm = nm.split(".")[0]
+            if nm not in dn and nm not in ("getattr",):
+                dn.append(nm)
+        groups = []
+        rest = list(dn)
+        while rest:
+            gk = 1 + rng.below(min(3, len(rest)))
+            groups.append(rest[:gk])
+            rest = rest[gk:]
+        opts = []
+        for g in groups:
+            if len(g) == 1 and rng.chance(2, 3):
+                opts.append({"op": "without", "names": g, "idx": []})
+            else:
+                g2 = list(g)
+                if rng.chance(1, 6):
+                    g2.append(rng.choice(dn))        # a name given by two options
+                opts.append({"op": "without_many", "names": g2, "idx": []})
+        if rng.chance(1, 8):
+            opts.append({"op": "without_many", "names": [], "idx": []})
+        ov = []
+        for _ in range(rng.below(3)):
+            nm = rng.choice(names1) if rng.chance(5, 6) else "fresh_global_%d" % rng.below(3)
+            if nm == "getattr":
+                continue
+            ov.append((nm, rng.choice(["new", "int"])))
+            opts.append({"op": "override", "names": [], "idx": [len(ov) - 1]})
+            if rng.chance(1, 6):
+                ov.append((nm, rng.choice(["new", "int"])))      # the same name overridden again
+                opts.append({"op": "override", "names": [], "idx": [len(ov) - 1]})
+        mode = rng.choice(["A", "B"])
+        ex = []
+        nex = rng.below(3)
+        for j in range(nex):
+            nm = "fresh_extra_%d" % j
+            if rng.chance(1, 4):
+                nm = rng.choice([n for n in names1 if "." not in n and n != "getattr"])
+            if nm in [e[0] for e in ex]:
+                continue
+            ex.append((nm, rng.choice(["new", "int"])))
+        if ex:
+            if len(ex) > 1 and rng.chance(1, 2):
+                opts.append({"op": "globals", "names": [], "idx": list(range(len(ex)))})
+            else:
+                for j in range(len(ex)):
+                    opts.append({"op": "global", "names": [], "idx": [j]})
+        nodef = rng.chance(1, 15)
+        if nodef:
+            opts.append({"op": "nodefaults", "names": [], "idx": []})
+        opts = shuffle(opts)
+        ev = []
+        for nm in dn[:2]:
+            ev += attempts(nm, (1,), "denied", 2)[:3]
+        reuse = []
+        if mode == "B":
+            for _ in range(1 + rng.below(2)):
+                r = rng.below(3)
+                if r == 0:
+                    sub = list(range(1 + rng.below(len(opts))))                      # a prefix
+                elif r == 1:
+                    sub = [i for i in range(len(opts)) if rng.chance(1, 2)]         # a sub-sequence
+                else:
+                    sub = [rng.below(len(opts))]                                    # one option alone
+                reuse.append(sub)
+        cases.append(Case(cid("c"), "composed", mode, nodefaults=nodef, deny=dn, override=ov,
+                          lookups=dn + [o[0] for o in ov] + [e[0] for e in ex],
+                          evals=ev + controls(dn + [o[0] for o in ov] + [e[0] for e in ex], 1),
+                          opts=opts, extra=ex, reuse=reuse, indep=rng.chance(1, 12)))
+    # 8. modules the HOST assembles (object.NewBuiltinsModule) from members of an existing module, installed as an override of
+    #    that module or under a new name beside a deny of it; the members come from this configuration's own defaults
+    #    (asm) or from a separate full instance (asmx: the base graph does not hold those objects - oracle only)
+    modglobals = [r for r, n in sorted(base.roots[1].items()) if n in base.mods]
+    for mi, M in enumerate(modglobals):
+        mnode = base.roots[1][M]
+        mem = sorted((lbl, t) for lbl, (ismem, t) in base.out.get(mnode, {}).items() if ismem and IDENT.match(lbl) and lbl not in KEYWORDS)
+        builtins = [lbl for lbl, t in mem if base.nodes[t][1] == "builtin"]
+        others = [lbl for lbl, t in mem if base.nodes[t][1] != "builtin"]
+        if len(builtins) < 2:
+            continue
+        nvar = 2 if tier == "quick" else 8
+        for vi in range(nvar):
+            sk = 1 + rng.below(min(5, len(builtins) - 1))
+            S = shuffle(builtins)[:sk]
+            if others and rng.chance(1, 3):
+                S.append(rng.choice(others))
+            outside = [b for b in builtins if b not in S]
+            src = "asm" if (vi % 2 == 0 or rng.chance(1, 2)) else "asmx"
+            kind = "%s:%s:%s" % (src, M, ",".join(S))
+            if rng.chance(1, 2):
+                name = M
+                opts = [{"op": "override", "names": [], "idx": [0]}]
+                case_kw = dict(override=[(M, kind)], extra=[], deny=[])
+            else:
+                name = "safe_" + M
+                opts = shuffle([{"op": "without", "names": [M], "idx": []}, {"op": "global", "names": [], "idx": [0]}])
+                case_kw = dict(override=[], extra=[(name, kind)], deny=[M])
+            ev = []
+            for m in S[:2]:
+                for syn in ("dot", "getattr", "from"):
+                    ev.append((render([name, m, "__module__"], syn), ".".join([name, m, "__module__"]), syn, "asm-self"))
+                if outside:
+                    x = rng.choice(outside)
+                    syn = rng.choice(["dot", "getattr", "from"])
+                    ev.append((render([name, m, "__module__", x], syn), ".".join([name, m, "__module__", x]), syn, "asm-out"))
+            if outside:
+                x = rng.choice(outside)
+                ev.append((render([name, x], "dot"), name + "." + x, "dot", "asm-out"))
+            ev.append((render([name, S[0]], "dot"), name + "." + S[0], "dot", "control"))
+            ev = [e for e in ev if e[0]]
+            cases.append(Case(cid("a"), "assembled" if src == "asm" else "assembled-foreign", "A",
+                              lookups=[M, name, name + "." + S[0], name + "." + S[0] + ".__module__"], evals=ev,
+                              opts=opts, nomodel=(src == "asmx"), **case_kw))
     return cases
 
 
@@ -431,6 +647,8 @@ def canon_model(v, case, base):
         i = n - NEW_BASE
         if i < len(case.override) and not case.override[i][1].startswith("ref:"):
             return "new:%d" % i
+        if 1000 <= i < 1000 + len(case.extra):
+            return "new:g%d" % (i - 1000)
         return "other"
     info = base.nodes.get(n)
     if info is None or not info[0]:
@@ -504,14 +722,23 @@ def _body(res, tier, repo, obs, model, base, base_text, hash_equal, aliases, pro
                 cases.append(Case("corpus-" + f[:-5], "corpus", j.get("mode", "A"), custom=j.get("custom", False),
                                   deny=j.get("deny", []), override=[tuple(x) for x in j.get("override", [])],
                                   lookups=j.get("lookups", []),
-                                  evals=[(s, p, "dot", r) for s, p, r in j.get("evals", [])]))
+                                  evals=[(s, p, "dot", r) for s, p, r in j.get("evals", [])],
+                                  opts=j.get("opts"), extra=[tuple(x) for x in j.get("extra", [])],
+                                  reuse=j.get("reuse", [])))
     cases += gen_cases(rng, base, tier)
     nshard = min(C.NCPU, 16)
     go, err = run_go(obs, repo, [c.go_json() for c in cases], work, nshard)
     if go is None:
         res.violation({"property": PROP, "kind": "harness-run-failed", "stage": "c11obs configs", "log": err}, nofail=True, tag="run")
         return
-    mo, err = run_model(model, basefile, ["NAMES"] + [c.model_line(base) for c in cases], nshard)
+    mlines = ["NAMES"]
+    for c in cases:
+        if c.nomodel:
+            continue
+        mlines.append(c.model_line(base))
+        for k, sub in enumerate(c.reuse):
+            mlines.append(c.model_line(base, sub=sub, suffix="~r%d" % k))
+    mo, err = run_model(model, basefile, mlines, nshard)
     if mo is None:
         res.violation({"property": PROP, "kind": "harness-run-failed", "stage": "model_globals", "log": err}, nofail=True, tag="run")
         return
@@ -551,6 +778,8 @@ def _body(res, tier, repo, obs, model, base, base_text, hash_equal, aliases, pro
     for c in cases:
         g = go.get(c.id)
         m = mo.get(c.id)
+        if c.nomodel and g is not None:
+            m = {"env": sorted(g["env"] or []), "reach": None, "look": {}}      # no prediction: oracle only
         groups[c.group] = groups.get(c.group, 0) + 1
         if g is None or m is None:
             corr.append({"stage": "run", "case": c.describe(), "why": "missing output", "impl": g is not None, "model": m is not None})
@@ -586,7 +815,14 @@ def _body(res, tier, repo, obs, model, base, base_text, hash_equal, aliases, pro
             if d["obj"] and g["lookups"].get(d["name"], "none") == "id:%d" % d["obj"]:
                 why.append("denied name %r still resolves to object %d" % (d["name"], d["obj"]))
         any_ref = any(k2.startswith("ref:") for _, k2 in c.override)
+        superseded = c.superseded()
+        forbidden = {}       # object id -> why a script must not get it
+        for d in g.get("denied") or []:
+            if d["obj"]:
+                forbidden[d["obj"]] = "the object registered under the denied name %r" % d["name"]
         for i, o in enumerate(g.get("over") or []):
+            if i in superseded:
+                continue
             kind = c.override[i][1]
             nm = o["name"]
             registered = o["old"] != 0 and nm in regnames and o["old"] not in exempt
@@ -601,8 +837,28 @@ def _body(res, tier, repo, obs, model, base, base_text, hash_equal, aliases, pro
                     why.append("replacement installed under %r is not reachable" % nm)
             if registered and applies and o["old_reachable"] and not any_ref:
                 why.append("object %d registered under overridden name %r is still reachable" % (o["old"], nm))
+            if registered and applies and not any_ref:
+                forbidden[o["old"]] = "the object that was registered under the overridden name %r" % nm
             if registered:
                 nontrivial.add(("override", nm))
+        # copies of a denied / replaced object that belong to another instance of the defaults (a host-assembled module
+        # may carry them in): by signature
+        for k in g.get("reach_sig") or []:
+            if k in forbidden:
+                why.append("a copy of object %d (%s) from another instance of the defaults is in the GetAttr closure of the "
+                           "configured globals" % (k, forbidden[k]))
+        # whatever the access path: no script may obtain a denied or replaced object
+        for (src, path, syn, role), ev in zip(c.evals, g.get("eval") or []):
+            r = ev["res"]
+            by_identity = c.mode == "A" or not base.dupsig      # plain-API mode names objects by signature: exact only if unique
+            if by_identity and (r.startswith("id:") or r.startswith("sig:")) and int(r.split(":")[1]) in forbidden:
+                msg = "script %r obtains %s (object %s)" % (src, forbidden[int(r.split(":")[1])], r)
+                if not any(src in w for w in why):
+                    why.append(msg)
+            if role == "asm-out" and (r.startswith("id:") or r.startswith("sig:")):
+                why.append("script %r reaches %s through a module the host assembled without that member" % (src, r))
+            if role in ("asm-self", "asm-out"):
+                nontrivial.add(("assembled", c.group, path.split(".")[0]))
         for (src, path, syn, role), ev in zip(c.evals, g.get("eval") or []):
             r = ev["res"]
             if role == "denied":
@@ -623,18 +879,61 @@ def _body(res, tier, repo, obs, model, base, base_text, hash_equal, aliases, pro
             elif role == "nodefaults":
                 if not r.startswith("err:"):
                     why.append("script %r obtains %s although default globals are disabled" % (src, r))
-        if c.nodefaults and not c.override and g["reach"]:
-            why.append("WithoutDefaultGlobals leaves %d default objects reachable" % len(g["reach"]))
+        left = [n for n in (g["reach"] or []) if n != nil_id or not c.extra]      # a fresh builtin's __module__ is object.Nil
+        if c.nodefaults and not c.override and left:
+            why.append("WithoutDefaultGlobals leaves %d default objects reachable" % len(left))
         if g.get("indep") not in (None, "", "ok"):
             why.append("configurations are not independent: " + g["indep"])
+        # further Configs made from sub-lists of the SAME Option values: each is configured by ITS options only
+        for k, sub in enumerate(c.reuse):
+            ro = (g.get("reuse") or [None] * len(c.reuse))[k]
+            if ro is None:
+                continue
+            sub_opts = [c.opts[i] for i in sub]
+            own_deny = [n for o in sub_opts if o["op"] in ("without", "without_many") for n in o["names"]]
+            own_over = [c.override[o["idx"][0]][0] for o in sub_opts if o["op"] == "override"]
+            own_extra = [c.extra[j][0] for o in sub_opts if o["op"] in ("global", "globals") for j in o["idx"]]
+            nodef = any(o["op"] == "nodefaults" for o in sub_opts)
+            env = set(ro["env"] or [])
+            for nm in sorted(base.roots[1]):
+                if not nodef and nm not in own_deny and nm not in env:
+                    why.append("a Config made from the options %s has lost the default global %r, which none of ITS options denies "
+                               "(an Option value carried state from the Config it was applied to before)"
+                               % (c.option_text(sub), nm))
+            for nm in own_deny:
+                if "." not in nm and nm in env and nm not in own_over:
+                    why.append("a Config made from the options %s still has the global %r, which one of its options denies"
+                               % (c.option_text(sub), nm))
+            for nm in own_over + own_extra:
+                if "." not in nm and nm != "" and nm not in env and not (nm in own_deny and nm not in own_over):
+                    why.append("a Config made from the options %s lacks the global %r, which one of its options provides"
+                               % (c.option_text(sub), nm))
+            nontrivial.add(("reuse", c.id, k))
+            mr = mo.get(c.id + "~r%d" % k)
+            if mr is not None:
+                if sorted(ro["env"] or []) != mr["env"]:
+                    corr.append({"stage": "reuse-env", "case": c.describe(), "sub_list": c.option_text(sub),
+                                 "differences": sorted(set(ro["env"] or []) ^ set(mr["env"]))[:6]})
+                elif mr["reach"] is not None:
+                    a = sorted(n for n in mr["reach"] if n in stable and n != nil_id)
+                    b2 = sorted(n for n in (ro["reach"] or []) if n != nil_id)
+                    if a != b2 and not base.dupsig:
+                        corr.append({"stage": "reuse-reach", "case": c.describe(), "sub_list": c.option_text(sub),
+                                     "only_model": sorted(set(a) - set(b2))[:6], "only_impl": sorted(set(b2) - set(a))[:6]})
         if why:
-            v = {"case": c.describe(), "why": why, "impl": {k: g.get(k) for k in ("denied", "over", "lookups", "eval", "indep")}}
+            v = {"case": c.describe(), "why": why,
+                 "impl": {k: g.get(k) for k in ("denied", "over", "lookups", "eval", "indep", "reach_sig", "reuse")}}
             if klass and any(k.get("id") == "C11#1" for k in known):
                 known_hits.append(v)        # only while an unrepaired entry C11#1 is listed in known_findings.jsonl
             else:
                 oracle_viol.append(v)
         # ---------------- CORRESPONDENCE: model prediction vs implementation
         diffs = []
+        if c.nomodel:
+            if groups[c.group] <= 2 and len(samples) < 24:
+                samples.append({"case": c.describe(), "impl_reach_size": len(g["reach"] or []), "impl_over": g.get("over"),
+                                "eval": (g.get("eval") or [])[:4], "model": "none (oracle only)"})
+            continue
         if sorted(g["env"] or []) != m["env"]:
             diffs.append(("env", sorted(set(g["env"] or []) ^ set(m["env"]))[:6]))
         if m["reach"] is None:
@@ -656,7 +955,9 @@ def _body(res, tier, repo, obs, model, base, base_text, hash_equal, aliases, pro
             if syn in ("import", "alias", "from"):
                 # an import statement resolves among the configured globals that are modules
                 rootv = m["look"].get(path.split(".")[0], "none")
-                if rootv == "none" or int(rootv) not in base.mods:
+                asm_nodes = ({NEW_BASE + i for i, (_, k2) in enumerate(c.override) if k2.startswith("asm:")} |
+                             {NEW_BASE + 1000 + j for j, (_, k2) in enumerate(c.extra) if k2.startswith("asm:")})
+                if rootv == "none" or (int(rootv) not in base.mods and int(rootv) not in asm_nodes):
                     mv = "none"
             r = canon_real(ev["res"])
             if mv.startswith("id:") and base.nodes[int(mv[3:])][1] == "dynamic_attr":
@@ -687,9 +988,18 @@ def _body(res, tier, repo, obs, model, base, base_text, hash_equal, aliases, pro
                    "risor.NewConfig (identities captured before configuration, and through the plain API with identification by "
                    "signature); observed: names of the globals, identities in the GetAttr closure, identity under names, "
                    "risor.Eval of generated access attempts (identifier, import, import-as, from-import, attribute chain, getattr, "
-                   "__module__ back-references, indirect), and a second untouched configuration. Non-trivial = distinct "
-                   "(deny|override, name) pairs whose name was registered before configuration." % (
-                       len(names1), groups.get("subset", 0)))
+                   "__module__ back-references, indirect), and a second untouched configuration. %d configurations COMPOSED from a "
+                   "shuffled sequence of options (several WithoutGlobal / WithoutGlobals options, names given twice, an empty "
+                   "WithoutGlobals, repeated WithGlobalOverride of one name, WithGlobal / WithGlobals also under default names, "
+                   "WithoutDefaultGlobals anywhere), predicted by the model's config_of; in plain-API mode further Configs are made "
+                   "from sub-lists of the SAME Option values and must be configured by their own options only. %d configurations "
+                   "with a module the HOST assembles (object.NewBuiltinsModule) from members of a default module - of this "
+                   "configuration's own instance or of a separate one - installed as override of that module or beside a deny of "
+                   "it: no script result and no node of the GetAttr closure may be the denied / replaced module (or a copy of it). "
+                   "Non-trivial = distinct (deny|override, name) pairs whose name was registered before configuration, reused "
+                   "sub-lists, assembled modules." % (
+                       len(names1), groups.get("subset", 0), groups.get("composed", 0),
+                       groups.get("assembled", 0) + groups.get("assembled-foreign", 0)))
     cov["samples"] = samples
     cov["input_distribution"] = groups
     cov["correspondence"] = {"cases": len(cases), "differences": len(corr), "graph_nodes": len(base.nodes),
@@ -701,6 +1011,10 @@ def _body(res, tier, repo, obs, model, base, base_text, hash_equal, aliases, pro
         "string case label of the GetAttr methods of package object; objects made fresh by GetAttr are leaves",
         "the denylist and the overrides are Go maps: the model applies them in list order; order-independence is observed "
         "(each sampled subset runs twice), not proved",
+        "in identity mode (A) the captured default globals are handed over with WithoutDefaultGlobals + WithGlobals placed LAST "
+        "in the option list, which is what applyDefaultGlobals does (defaults are written over WithGlobal(s) values)",
+        "host-assembled modules built from a SEPARATE instance of the defaults are judged by the oracle only (signatures); "
+        "the base graph has no nodes for them",
         "objects returned by CALLING builtins are outside the property's observable (GetAttr closure)",
         "capability aliases (distinct builtins wrapping one Go function, e.g. os.getenv / getenv) are reported, not judged",
     ]
@@ -710,6 +1024,16 @@ def _body(res, tier, repo, obs, model, base, base_text, hash_equal, aliases, pro
         res.known_finding("WithoutGlobal/WithGlobalOverride with a dotted name of >= 4 components resolves intermediate modules "
                           "from the root module (risor_config.go resolveModule): e.g. deny vx.inner.deep.leaf2 leaves that object "
                           "reachable and edits vx.deep.leaf2 instead (%d configurations)" % len(known_hits))
+    if oracle_viol:
+        tally = {}
+        for v in oracle_viol:
+            grp = v.get("case", {}).get("group", "?")
+            for w in (v.get("why") or []) if isinstance(v.get("why"), list) else [v.get("why")]:
+                kind = ("option value carried state" if "Option value carried state" in w else
+                        "denied object reachable" if "denied name" in w else
+                        "replaced object reachable" if "overridden name" in w else "other")
+                tally["%s: %s" % (grp, kind)] = tally.get("%s: %s" % (grp, kind), 0) + 1
+        cov["oracle_violations_by_group"] = tally
     for v in oracle_viol[:10]:
         v.update({"property": PROP, "kind": "oracle-violation",
                   "replay_cmd": "./check C11 --replay <this file>"})
@@ -746,6 +1070,8 @@ def replay(data):
             "deny": c.get("deny", []), "override": [{"name": n, "kind": k} for n, k in c.get("override", [])],
             "lookups": c.get("deny", []) + [n for n, _ in c.get("override", [])],
             "eval": [e["src"] for e in (data.get("impl", {}).get("eval") or [])], "indep": c.get("indep", False)}
+    if c.get("opts") is not None:
+        spec.update({"opts": c["opts"], "extra": [{"name": n, "kind": k} for n, k in c.get("extra", [])], "reuse": c.get("reuse", [])})
     rc, o, e = C.run([obs, "configs", repo_dir()], input=(json.dumps(spec) + "\n").encode())
     print(o, e)
     return 0
